@@ -8,6 +8,7 @@
 pub mod cfg;
 pub mod deploy;
 pub mod gen;
+pub mod search;
 pub mod tx;
 
 use crate::rng::Rng;
@@ -66,7 +67,7 @@ impl Runner {
     }
 
     /// Rebuilds the world from scratch: deployment plus every successful transaction so far.
-    fn restore(&mut self, stats: &mut Stats) {
+    pub fn restore(&mut self, stats: &mut Stats) {
         let cfg = self.world.cfg.clone();
         if let Ok(mut w) = World::deploy(&cfg) {
             for t in &self.done {
